@@ -166,6 +166,8 @@ class InterpolatingOpacity(Opacity):
                 'Unknown interpolation mode {}'.format(self._interp_mode))
 
     def compute_opacity(self, temperature, pressure, wngrid=None):
-        import math
-        logpressure = math.log10(pressure)
+        # Same log10 as used for the pressure grid (math.log10 and np.log10
+        # can differ in the last bit, which misplaces a pressure lying
+        # exactly on a grid node)
+        logpressure = np.log10(pressure)
         return self.interp_bilinear_grid(temperature, logpressure, *self.find_closest_index(temperature, logpressure), wngrid) / 10000
